@@ -112,7 +112,10 @@ class Aff:
         return not self.t
 
     def __eq__(self, o):
-        o = aff(o)
+        if not isinstance(o, Aff):
+            if isinstance(o, bool) or not isinstance(o, (int, Fraction)):
+                return False
+            o = Aff(o)
         return self.c == o.c and self.t == o.t
 
     def __hash__(self):
